@@ -28,10 +28,11 @@ type pkgRules struct {
 	locks    bool     // R1/R2 on X.mu.Lock/Unlock
 	calls    []string // R3 selector calls "pkg.Func" or ".Method"
 	lruGuard bool     // R4 on SizedLRU methods
+	selects  bool     // R5: receive-only selects become scheduler decisions
 }
 
 var rules = []pkgRules{
-	{dir: "cache/disk", locks: true, lruGuard: true,
+	{dir: "cache/disk", locks: true, lruGuard: true, selects: true,
 		calls: []string{"os.Open", "os.OpenFile", "os.Remove", "os.Rename", "tfc.Create", ".Sync", "io.Copy"}},
 	{dir: "cache/disk/casblob", locks: false,
 		calls: []string{"binary.Write", ".Sync", "f.Write", "io.Copy"}},
@@ -255,6 +256,13 @@ func (w *rewriter) rewriteList(list []ast.Stmt) []ast.Stmt {
 	out := make([]ast.Stmt, 0, len(list)+4)
 	for _, stmt := range list {
 		w.rewriteNested(stmt)
+		if w.r.selects {
+			if sw := w.rewriteSelect(stmt); sw != nil {
+				out = append(out, hookCall("Yield", strLit(w.point("R5"))))
+				out = append(out, sw)
+				continue
+			}
+		}
 		if w.r.locks {
 			if es, ok := stmt.(*ast.ExprStmt); ok {
 				if isMuCall(es.X, "Lock") {
@@ -293,6 +301,39 @@ func (w *rewriter) rewriteList(list []ast.Stmt) []ast.Stmt {
 		out = append(out, stmt)
 	}
 	return out
+}
+
+// rewriteSelect turns `select { case <-a: A  case <-b: B }` (receive-only, no
+// bindings, no default, at least two cases) into
+// `switch simhook.SelectRecv(pt, a, b) { case 0: A  case 1: B }`.
+func (w *rewriter) rewriteSelect(stmt ast.Stmt) ast.Stmt {
+	sel, ok := stmt.(*ast.SelectStmt)
+	if !ok || len(sel.Body.List) < 2 {
+		return nil
+	}
+	var chans []ast.Expr
+	for _, c := range sel.Body.List {
+		cc := c.(*ast.CommClause)
+		es, ok := cc.Comm.(*ast.ExprStmt)
+		if !ok {
+			return nil // default, send, or a receive with bindings
+		}
+		u, ok := es.X.(*ast.UnaryExpr)
+		if !ok || u.Op != token.ARROW {
+			return nil
+		}
+		chans = append(chans, u.X)
+	}
+	args := append([]ast.Expr{strLit(w.point("R5s"))}, chans...)
+	sw := &ast.SwitchStmt{
+		Tag:  &ast.CallExpr{Fun: &ast.SelectorExpr{X: ast.NewIdent("simhook"), Sel: ast.NewIdent("SelectRecv")}, Args: args},
+		Body: &ast.BlockStmt{},
+	}
+	for i, c := range sel.Body.List {
+		cc := c.(*ast.CommClause)
+		sw.Body.List = append(sw.Body.List, &ast.CaseClause{List: []ast.Expr{intLit(i)}, Body: cc.Body})
+	}
+	return sw
 }
 
 // rewriteNested descends into the blocks contained in stmt.
